@@ -12,7 +12,7 @@
        was taken; the fee payer is the MsgExec's grantee, the fixed cost is the submitter's)  -> submit_tx
      app/antedl/cosmoslane/993c + 992c through Model/Lane.v, and the SDK vesting handlers' rule that
        the target account must not exist yet                                              -> vesting_tx
-     ICA host packets (no ante handler), Model/Lane.v executed_ica                         -> ica_packet
+     ICA host packets (no ante handler), Model/Lane.v executed_ica                         -> ica_packet, OIcaSubmit
 
    Not logic, hence inputs: ecrecover/keccak ([verifies], a Section variable), bech32 validity / length of the address
    strings, hex decoding of the signature string, the SDK decorators' verdicts (Lane.env).  Executable Gallina only. *)
@@ -135,6 +135,8 @@ Section Vauth.
   | OSubmit (nest : nat) (payer sub acc : addr) (acc_ok : bool) (g : sigstr) (txfee : Z)
   | OVestingTx (vb : option Z) (rest : mode -> option Z) (sh : shape)
   | OIcaPacket (p : ica_params) (signers_ok : bool) (l : list msg)
+  | OIcaSubmit (sub acc : addr) (acc_ok : bool) (g : sigstr)   (* a submission carried by an ICA host packet (default host
+                                           parameters): no ante handler, no transaction fee; the message server validates *)
   | OBank (from to : addr) (amt : Z)     (* any other module moving coins between accounts *)
   | OMint (a : addr) (amt : Z).          (* any other module minting (amt > 0) or burning (amt < 0) at a *)
 
@@ -143,6 +145,8 @@ Section Vauth.
     | OSubmit n p sub acc ok g fee => let (s, r) := submit_tx st n p sub acc ok g fee in (s, RSubmit r)
     | OVestingTx vb rest sh => let (s, b) := vesting_tx st vb rest sh in (s, RVesting b)
     | OIcaPacket p ok l => (ica_packet st p ok l, RIca)
+    | OIcaSubmit sub acc ok g =>
+        if msg_valid sub acc ok g then let (s, r) := submit_msg st sub acc g in (s, RSubmit r) else (st, RSubmit SRejBasic)
     | OBank f t amt =>
         (with_bal st (upd (upd (bal st) f (bal st f - amt)) t (upd (bal st) f (bal st f - amt) t + amt)), ROtherOp)
     | OMint a amt =>
